@@ -1,7 +1,7 @@
 (* Executable model of the session layer of asyncfix (asyncfix/connection.py, session.py and the
    journal / codec operations they call), at MESSAGE level: a decoded message is its message type
    plus the ordered list of (tag, value) strings; bytes never appear here.  The model follows the
-   Python line by line, including its defects (ledger rows D11, D15, D20, ...; D10, D12, D22, D27 are repaired in the code).
+   Python line by line, including its defects (ledger rows D11, D20, ...; D10, D12, D14, D15, D22, D25, D27 are repaired in the code).
    No proofs here: see AF.Lemmas.Session*.v and AF.Props.C04 / C11 / C05.
 
    Conventions
@@ -350,6 +350,10 @@ Definition send_gate (m : msg) (w : world) : M unit :=
   else if (role w =? ROLE_INITIATOR) && (st w =? ST_LOGON_SENT)
           && negb (match mkind m with KLogout => true | _ => false end)
     then raise XConn
+  (* elif (not the initiator) state == LOGON_INITIAL_RECV: only Logon / Logout before the Logon reply *)
+  else if negb (role w =? ROLE_INITIATOR) && (st w =? ST_LOGON_RECV)
+          && negb (match mkind m with KLogon | KLogout => true | _ => false end)
+    then raise XConn
   else ret tt.
 
 (* replies to a ResendRequest (PossDupFlag = Y retransmissions, SequenceReset-GapFill) are written but not
@@ -359,13 +363,14 @@ Definition skip_journal (m : msg) : bool :=
   || ((match mkind m with KSeqReset => true | _ => false end)
       && (match get T123 (mtags m) with Some v => str_eqb v S_Y | None => false end)).
 
-(* encode, write, drain, journal *)
+(* encode, journal, write, drain: the journal comes first, so a journal error leaves nothing on the wire and a
+   number that reached the wire is never allocated again *)
 Definition send_write (c : cfg) (m : msg) : M unit :=
   sm <- encode c m ;;
+  (if skip_journal m then ret tt else persist_out (fst sm) (snd sm)) ;;;
   w1 <- getw ;;
   (if wr w1 then ret tt else raise XAttribute) ;;;      (* None.write(...) *)
-  emit (Wire (snd sm)) ;;;
-  if skip_journal m then ret tt else persist_out (fst sm) (snd sm).
+  emit (Wire (snd sm)).
 
 (* TestRequest gate, then the write *)
 Definition send_tail (c : cfg) (m : msg) (w : world) : M unit :=
@@ -613,10 +618,17 @@ Definition gap_check (c : cfg) (m : msg) : M (option bool) :=
   b <- check_gaps c n ;;
   ret (Some b).
 
+(* messages that make the connection drop before anything is handled: the first message of an acceptor that is
+   not a Logon; anything but Logon / Logout while the Logon exchange is under way *)
+Definition early_drop (m : msg) (w : world) : bool :=
+  ((st w =? ST_NCE) && negb (match mkind m with KLogon => true | _ => false end))
+  || (((st w =? ST_LOGON_SENT) || (st w =? ST_LOGON_RECV))
+      && negb (match mkind m with KLogon | KLogout => true | _ => false end)).
+
 Definition part1 (c : cfg) (m : msg) : M (option bool) :=
   w <- getw ;;
   if st w <? ST_NCE then raise XAssertion else
-  if (st w =? ST_NCE) && negb (match mkind m with KLogon => true | _ => false end) then
+  if early_drop m w then
     disconnect c ST_DISC_BROKEN None ;;; ret None
   else
     pre_handlers c m w ;;; gap_check c m.
